@@ -1,5 +1,6 @@
 import PegVerif.Proofs.BuildProofs
 import PegVerif.Proofs.BuildFmtProofs
+import PegVerif.Proofs.BuildDirProofs
 /-
   C18 – build-script compilation leaves the destination matching the current grammar.
   Model: Build.lean (`Compile::run` on a single file after fix F6, CRC-32/ISO-HDLC, header),
@@ -76,6 +77,53 @@ theorem C18_format_untouched_was_false : ¬ C18F_old_untouched_statement := C18F
 /-- non-vacuity of the assumption: a formatter that is not the identity and keeps the header lines -/
 example : KeepsHeaderLines Witness.k0 FmtWitness.fmtSq := FmtWitness.keeps_fmtSq
 
+/-! ### directory mode (`Compile::directory`, BuildDir.lean, Proofs/BuildDirProofs.lean)
+
+  The recursive walk compiles every `.ebnf` file next to itself with the single-file routine, in the order `read_dir`
+  yields them (the list order: an environment parameter), and stops at the first error.  Every theorem above is about
+  one file; these lift them to the walk. -/
+
+/-- a successful walk gave every file exactly its own single-file run – no file's outcome depends on another file – and
+    every one of these runs succeeded (so `C18_fresh_partial` applies to each file separately) -/
+theorem C18_dir_success_is_per_file (k : Consts) (compile : List UInt8 → Option (List UInt8)) (fs : List FS) (w : Bool)
+    (h : dirResult (runDir k compile fs) = .ok w) :
+    runDir k compile fs = fs.map (runEntry k compile) ∧ ∀ f ∈ fs, ∃ w', (runEntry k compile f).2 = .ok w' :=
+  runDir_ok k compile fs w h
+
+/-- a failing walk: the files before the first failing one got their own (successful) run; the failing file and all
+    files after it are byte for byte as before -/
+theorem C18_dir_failure_preserves (k : Consts) (compile : List UInt8 → Option (List UInt8)) (fs : List FS)
+    (h : dirResult (runDir k compile fs) = .err) :
+    ∃ pre f post, fs = pre ++ f :: post ∧ (∀ x ∈ pre, ∃ w, (runEntry k compile x).2 = .ok w) ∧
+      (runEntry k compile f).2 = .err ∧
+      runDir k compile fs = pre.map (runEntry k compile) ++ (f, .err) :: post.map (fun x => (x, Out.none)) :=
+  runDir_err k compile fs h
+
+/-- the walk succeeds exactly when every file's own run succeeds -/
+theorem C18_dir_ok_iff (k : Consts) (compile : List UInt8 → Option (List UInt8)) (fs : List FS) :
+    (∃ w, dirResult (runDir k compile fs) = .ok w) ↔ ∀ f ∈ fs, ∃ w', (runEntry k compile f).2 = .ok w' :=
+  dirResult_ok_iff k compile fs
+
+/-- on success the outcome does not depend on the order in which the operating system lists the directory -/
+theorem C18_dir_order_irrelevant (k : Consts) (compile : List UInt8 → Option (List UInt8)) (fs fs' : List FS)
+    (hp : fs.Perm fs') (w : Bool) (h : dirResult (runDir k compile fs) = .ok w) :
+    (∃ w', dirResult (runDir k compile fs') = .ok w') ∧ (runDir k compile fs).Perm (runDir k compile fs') :=
+  runDir_perm k compile fs fs' hp w h
+
+/-- a walk directly after a successful walk rewrites no file -/
+theorem C18_dir_untouched (k : Consts) (compile : List UInt8 → Option (List UInt8)) (fs : List FS) (w : Bool)
+    (h : dirResult (runDir k compile fs) = .ok w) :
+    runDir k compile ((runDir k compile fs).map (·.1)) = (runDir k compile fs).map (fun e => (e.1, .ok false)) :=
+  runDir_again k compile fs w h
+
+/-- with an error the order **does** matter (which files were compiled before the walk stopped): a checked instance -/
+theorem C18_dir_order_matters_on_failure :
+    ∃ (k : Consts) (compile : List UInt8 → Option (List UInt8)) (a b : FS),
+      dirResult (runDir k compile [a, b]) = .err ∧ dirResult (runDir k compile [b, a]) = .err ∧
+      ((runDir k compile [a, b]).map (·.1)) ≠ [a, b] ∧ ((runDir k compile [b, a]).map (·.1)) = [b, a] :=
+  ⟨⟨str "0.7.0", str "2024"⟩, fun g => if g == str "A=" then none else some (str "/*code*/" ++ g),
+   ⟨some (str "A='a';"), none, []⟩, ⟨some (str "A="), none, []⟩, by decide +kernel⟩
+
 /-! ## non-vacuity (BEGIN) -/
 namespace C18_nv
 
@@ -137,6 +185,27 @@ example : Build.step k0 comp fsEnd .run = (fsEnd, .ok false) := C18_untouched k0
 /-- `C18_rewrite_only_when_needed` at `fsEnd` -/
 example : Build.step k0 comp fsEnd .run = (fsEnd, .ok false) :=
   C18_rewrite_only_when_needed k0 comp fsEnd gB (str "/*code*/" ++ gB) rfl rfl
+
+/-! directory mode: three files (one already up to date, one new, one without an `.ebnf` file), then the same with the bad
+    grammar in the middle -/
+def dA : FS := fsEnd
+def dB : FS := ⟨some gA, none, pQ⟩
+def dGone : FS := ⟨none, some (str "left over"), pQ⟩
+def dBad : FS := ⟨some gBad, some (str "old"), pQ⟩
+theorem dir_ok : dirResult (runDir k0 comp [dA, dB, dGone]) = .ok true := by decide +kernel
+example : runDir k0 comp [dA, dB, dGone] = [dA, dB, dGone].map (runEntry k0 comp) :=
+  (C18_dir_success_is_per_file k0 comp _ true dir_ok).1
+example : (runDir k0 comp [dA, dB, dGone]).map (·.2) = [.ok false, .ok true, .ok false] := by decide +kernel
+example : (runDir k0 comp [dGone, dB, dA]).Perm (runDir k0 comp [dA, dB, dGone]) :=
+  ((C18_dir_order_irrelevant k0 comp [dA, dB, dGone] [dGone, dB, dA] (List.reverse_perm [dGone, dB, dA]).symm.symm true dir_ok).2).symm
+example : runDir k0 comp ((runDir k0 comp [dA, dB, dGone]).map (·.1)) =
+    (runDir k0 comp [dA, dB, dGone]).map (fun e => (e.1, .ok false)) := C18_dir_untouched k0 comp _ true dir_ok
+theorem dir_err : dirResult (runDir k0 comp [dB, dBad, dA]) = .err := by decide +kernel
+example : (runDir k0 comp [dB, dBad, dA]).map (·.2) = [.ok true, .err, .none] ∧
+    ((runDir k0 comp [dB, dBad, dA]).map (·.1)).drop 1 = [dBad, dA] := by decide +kernel
+example : ∃ pre f post, [dB, dBad, dA] = pre ++ f :: post ∧ (runEntry k0 comp f).2 = .err := by
+  obtain ⟨pre, f, post, h1, _, h3, _⟩ := C18_dir_failure_preserves k0 comp _ dir_err
+  exact ⟨pre, f, post, h1, h3⟩
 
 end C18_nv
 /-! ## non-vacuity (END) -/
